@@ -5,6 +5,7 @@ import (
 	"encoding/json"
 	"fmt"
 	"sort"
+	"time"
 
 	pt "github.com/weedbox/pokertable"
 
@@ -504,6 +505,53 @@ func c03Run(c *h.Ctx) {
 			return
 		}
 	}
+	if cfg.Mode != "mtt" && r.Intn(3) == 0 && !c.Failed() {
+		// last step of the sequence: the engine's auto seat-in fires (normally 17 s after the last reservation; here
+		// its ready group is completed the way its own timeout handler does): everybody reserved but not seated-in
+		// is seated in, in the table and in the seat manager alike
+		notIn := 0
+		for _, ps := range s.TE.GetTable().State.PlayerStates {
+			if !ps.IsIn {
+				notIn++
+			}
+		}
+		if rg := pt.VerifAutoJoinGroup(s.TE); rg != nil && notIn > 0 {
+			done := make(chan struct{})
+			go func() {
+				defer close(done)
+				for idx, ready := range rg.GetParticipantStates() {
+					if !ready {
+						rg.Ready(idx)
+					}
+				}
+			}()
+			fired := false
+			select {
+			case <-done:
+				dl := time.Now().Add(2 * time.Second)
+				for time.Now().Before(dl) && !fired {
+					fired = true
+					for _, ps := range s.TE.GetTable().State.PlayerStates {
+						fired = fired && ps.IsIn
+					}
+					time.Sleep(200 * time.Microsecond)
+				}
+			case <-time.After(3 * time.Second):
+			}
+			if fired {
+				time.Sleep(300 * time.Microsecond)
+				for id := range model.seatOf {
+					model.isIn[id] = true
+				}
+				c.Feature("auto-seat-in-fired")
+				ops = append(ops, c03Op{Kind: "auto-seat-in", Expect: "ok", Got: "ok"})
+				if sig, det := c03Consistent(s, model); sig != "" {
+					c.Violate(sig, fmt.Sprintf("after the engine's auto seat-in of %d reserved players: %s", notIn, det), witness())
+					return
+				}
+			}
+		}
+	}
 	if refused > 0 && reused > 0 {
 		c.Nontrivial()
 	}
@@ -531,7 +579,7 @@ func init() {
 			return map[string]int{"quick": 1500, "thorough": 20000}[tier]
 		},
 		RequiredFeatures: func(string) []string {
-			return []string{"vacated-seat-taken-again", "leave-with-unknown-id", "update:leave-with-refused-join", "op:reserve:error", "op:update:ok", "op:update:error", "status:table_game_standby", "status:table_pausing", "status:table_created", "create-with-duplicate-id"}
+			return []string{"vacated-seat-taken-again", "leave-with-unknown-id", "update:leave-with-refused-join", "op:reserve:error", "op:update:ok", "op:update:error", "status:table_game_standby", "status:table_pausing", "status:table_created", "create-with-duplicate-id", "auto-seat-in-fired", "update:leaver-named-twice"}
 		},
 		CaseTimeout: 120e9,
 		Run:         c03Run,
